@@ -156,7 +156,7 @@ def gen_shims(ifaces):
         table.append((k, it))
     L.append("typedef double (*shim_fn)(const double*, const int*, const char* const*, double*, int*);")
     L.append("shim_fn SHIMS[] = {%s};" % ", ".join("shim_%d" % k for k, _ in table))
-    L.append('const char* SHIM_SYMS[] = {%s};' % ", ".join('"%s"' % it["sym"] for _, it in table))
+    L.append('const char* SHIM_SYMS[] = {%s};' % ", ".join('"%s"' % re.sub(r"_passthrough$", "", it["fname"], flags=re.I) for _, it in table))  # the comparison is chosen by what the Fortran name promises
     L.append('const char* SHIM_ABI[] = {%s};' % ", ".join('"%s"' % abi_string(it["result"], [a[1] for a in it["args"]]) for _, it in table))
     L.append("int N_SHIMS = %d;" % len(table))
     return "\n".join(L) + "\n", table
@@ -260,7 +260,7 @@ def gen_fshims(ifaces, f90_text):
     for k, _, _ in table:
         C.append("extern double shim_%d(const double*, const int*, const char* const*, double*, int*);" % k)
     C.append("shim_fn SHIMS[] = {%s};" % ", ".join("shim_%d" % k for k, _, _ in table))
-    C.append('const char* SHIM_SYMS[] = {%s};' % ", ".join('"%s"' % it["sym"] for _, it, _ in table))
+    C.append('const char* SHIM_SYMS[] = {%s};' % ", ".join('"%s"' % re.sub(r"_passthrough$", "", it["fname"], flags=re.I) for _, it, _ in table))
     C.append('const char* SHIM_ABI[] = {%s};' % ", ".join('"%s"' % abi_string(it["result"], [a[1] for a in it["args"]]) for _, it, _ in table))
     C.append("int N_SHIMS = %d;" % len(table))
     return "\n".join(F), "\n".join(C) + "\n", table
@@ -368,6 +368,17 @@ def check(tier):
             fid = "f90-result-" + sym
             summary = "Fortran interface %s -> %s: result type mismatch, Fortran %s vs C %s" % (it["fname"], sym, {"v": "subroutine (void)", "i": "integer(c_int)", "d": "real(c_double)"}[fr], {"v": "void", "i": "int", "d": "double"}[cr])
             rep.finding_or_violation(fid, summary, {"engine": "c18", "kind": "result", "symbol": sym, "fortran": fsig, "c": c})
+    # ---- layer 1c': the binding label of an interface is the C function its Fortran name promises (masa_x or masa_x_passthrough -> 'masa_x'),
+    # and no two interfaces bind the same C symbol
+    seen_sym = {}
+    for it in ifaces:
+        obligations += 1
+        want = re.sub(r"_passthrough$", "", it["fname"], flags=re.I)
+        if want.lower() != it["sym"].lower():
+            rep.violation("Fortran interface %s binds C symbol %s: a caller of %s reaches another function" % (it["fname"], it["sym"], want), {"engine": "c18", "kind": "label", "interface": it["fname"], "symbol": it["sym"]})
+        if it["sym"] in seen_sym:
+            rep.violation("Fortran interfaces %s and %s bind the same C symbol %s" % (seen_sym[it["sym"]], it["fname"], it["sym"]), {"engine": "c18", "kind": "duplicate-label", "symbol": it["sym"]})
+        seen_sym.setdefault(it["sym"], it["fname"])
     # ---- layer 1d: SWIG module
     obligations += 1
     swig = open(os.path.join(b.src, "masa.i")).read()
